@@ -7,7 +7,7 @@
    Spec.v   : the value-type reference semantics (spec_step / spec_run : a wrapper is option N).
    All theorems quantify over ALL histories (no length bound) and both payload flavours z. *)
 From Common Require Import Prelude.
-From C09 Require Import Model Spec Env Values Proofs Proofs2 ProofsAny ProofsAny2 ProofsEnv ProofsValues.
+From C09 Require Import Model Spec Env Values Micro Exc Proofs Proofs2 ProofsAny ProofsAny2 ProofsEnv ProofsValues ProofsExc.
 Local Open Scope N_scope.
 
 (* ---- 1. one step of the storage machine realises one step of the value semantics, never a
@@ -342,6 +342,71 @@ Theorem value_deref_source_unchanged : forall z h i j mv,
   (i <> j -> r_store (run (fixed_cfg z) (h ++ [EmplaceDeref i j false])) j = r_store (run (fixed_cfg z) h) j).
 Proof. exact ProofsValues.deref_source. Qed.
 Print Assumptions value_deref_source_unchanged.
+
+(* ---- 17. EXCEPTIONS thrown by payload operations (Exc.v: the k-th payload construction / assignment of a member
+        call throws before it has any effect; the member exits there).  Basic exception safety of the storage
+        machine: for every member, every well-formed configuration, both payload flavours, value and *other
+        arguments and the throw planted at the 1st..4th payload operation, the state after the (normal or
+        exceptional) exit never has the flag set over raw storage - because every member stores the flag
+        AFTER the payload operation.  emplace exits disengaged (reset() ran, the constructor failed, the flag
+        was never set); an engaged target of a throwing assignment keeps its old payload.  The order of seeded
+        change C09-17 (flag first) is refuted.  With the repaired helper (default_construct_storage_if_needed()
+        raises the flag as soon as the T() exists, 4e05296) the FULL invariant holds: flag <=> live payload
+        after every exit; a throwing assignment into an empty target ends engaged with T(); the helper before
+        the repair is refuted. *)
+Theorem optional_exception_flag_implies_live : exc_check flag_live model_table = true.
+Proof. exact ProofsExc.exc_safe_model. Qed.
+Print Assumptions optional_exception_flag_implies_live.
+
+Theorem optional_exception_emplace_disengages : forall z v x,
+  runx z model_table MEmplace (vval v) 1
+       {| f_this := match x with None => fresh | Some w => {| st := Live w; hv := true |} end; f_other := fresh; f_alias := false; f_log := [] |} =
+  XThrow {| f_this := fresh; f_other := fresh; f_alias := false;
+            f_log := match x with None => [] | Some _ => [(KDtor, This)] end |}.
+Proof. exact ProofsExc.exc_emplace_disengages. Qed.
+Print Assumptions optional_exception_emplace_disengages.
+
+Theorem optional_exception_assign_keeps_engaged : forall z v w,
+  runx z model_table MAssignValue (vval v) 1
+       {| f_this := {| st := Live w; hv := true |}; f_other := fresh; f_alias := false; f_log := [] |} =
+  XThrow {| f_this := {| st := Live w; hv := true |}; f_other := fresh; f_alias := false; f_log := [] |}.
+Proof. exact ProofsExc.exc_assign_engaged_keeps. Qed.
+Print Assumptions optional_exception_assign_keeps_engaged.
+
+Theorem optional_exception_flag_first_refuted :
+  exc_check flag_live flag_first_table = false /\
+  forall z v, runx z flag_first_table MEmplace (vval v) 1 {| f_this := fresh; f_other := fresh; f_alias := false; f_log := [] |} =
+              XThrow {| f_this := {| st := Raw; hv := true |}; f_other := fresh; f_alias := false; f_log := [] |}.
+Proof. split; [exact ProofsExc.exc_flag_first_refuted | exact ProofsExc.exc_flag_first_witness]. Qed.
+Print Assumptions optional_exception_flag_first_refuted.
+
+(* the full invariant of the repaired machine: flag <=> live payload after every exit, normal or exceptional *)
+Theorem optional_exception_flag_iff_live : exc_check flag_iff_live model_table = true.
+Proof. exact ProofsExc.exc_safe_iff_model. Qed.
+Print Assumptions optional_exception_flag_iff_live.
+
+(* what the repaired code does when a payload assignment into an EMPTY target throws: the target is ENGAGED with T() *)
+Theorem optional_exception_assign_into_empty_engaged : forall z v,
+  runx z model_table MAssignValue (vval v) 2 {| f_this := fresh; f_other := fresh; f_alias := false; f_log := [] |} =
+  XThrow {| f_this := {| st := Live 0; hv := true |}; f_other := fresh; f_alias := false; f_log := [(KDefault, This)] |}.
+Proof. exact ProofsExc.exc_assign_into_empty_engaged. Qed.
+Print Assumptions optional_exception_assign_into_empty_engaged.
+
+Theorem optional_exception_wrapper_assign_into_empty_engaged : forall (z : bool) (w : N) (mv : bool),
+  runx z model_table (if mv then MAssignMove else MAssignCopy) (vval 0) 2
+       {| f_this := fresh; f_other := {| st := Live w; hv := true |}; f_alias := false; f_log := [] |} =
+  XThrow {| f_this := {| st := Live 0; hv := true |}; f_other := {| st := Live w; hv := true |}; f_alias := false;
+            f_log := [(KDefault, This)] |}.
+Proof. exact ProofsExc.exc_wrapper_assign_into_empty_engaged. Qed.
+Print Assumptions optional_exception_wrapper_assign_into_empty_engaged.
+
+(* the helper before repair 4e05296 left that T() alive without the flag: refuted with a witness *)
+Theorem optional_exception_old_helper_refuted :
+  exc_check flag_iff_live old_helper_table = false /\
+  forall z v, runx z old_helper_table MAssignValue (vval v) 2 {| f_this := fresh; f_other := fresh; f_alias := false; f_log := [] |} =
+              XThrow {| f_this := {| st := Live 0; hv := false |}; f_other := fresh; f_alias := false; f_log := [(KDefault, This)] |}.
+Proof. split; [exact ProofsExc.exc_old_helper_refuted | exact ProofsExc.exc_old_helper_leaks]. Qed.
+Print Assumptions optional_exception_old_helper_refuted.
 
 (* ---- non-vacuity: concrete histories exercising the hypotheses / the interesting paths *)
 Example ex_assign_from_empty :
